@@ -235,7 +235,8 @@ def cli_honours_parameters(ctx):
     sets = [(5, 40, 40, 0.125, 4, False, 0.215, 0.125, 0.335), (9, 40, 40, 0.004, 6, True, 0.0051, 0.004, 0.996),
             (11, 40, 40, 0.996, 2, False, 0.5049, 0.9949, 0.0049), (0, 3, 3, 0.3, 6, False, 0.1, 0.1, 0.1)]
     for _ in range(3 if ctx.quick else 25):
-        sets.append((rng.randrange(10 ** 6), rng.randint(3, 7), rng.randint(3, 7), round(rng.uniform(0.001, 0.999), rng.choice([2, 3, 4])),
+        sets.append((rng.randrange(10 ** 6), rng.randint(3, 7), rng.randint(3, 7),
+                     min(max(round(rng.uniform(0.001, 0.999), rng.choice([2, 3, 4])), 0.001), 0.999),   # rounding must not leave (0,1)
                      rng.choice([1, 3, 6, 9]), rng.random() < 0.5, round(rng.uniform(0.001, 0.999), 4), round(rng.uniform(0.001, 0.999), 3),
                      round(rng.uniform(0.001, 0.999), 4)))
     jobs = []
